@@ -122,6 +122,7 @@ pub fn record_alphabet(section: &str) -> Vec<String> {
     let a: &[&str] = match section {
         "General" => &[
             "AudioFilename: dir\\a b.mp3",
+            "AudioFilename: a\\\\b.mp3",
             "AudioFilename:",
             "AudioLeadIn: -5",
             "AudioLeadIn: 2147483647",
@@ -184,6 +185,7 @@ pub fn record_alphabet(section: &str) -> Vec<String> {
         ],
         "Events" => &[
             "0,0,\"dir\\\\x y.png\",0,0",
+            "0,0,\"a\\\\\\\\b.png\",0,0",
             "Video,0,\"v.mp4\"",
             "1,0,\"img.png\"",
             "Sprite,Background,Centre,\"sp.png\",320,240",
